@@ -10,13 +10,19 @@ use crate::traits::HighwayHash;
 ///
 /// The main reason for directly using `PortableHash` would be if avoiding
 /// `unsafe` code blocks is a top priority.
-#[derive(Debug, Default, Clone)]
+#[derive(Debug, Clone)]
 pub struct PortableHash {
     pub(crate) v0: [u64; 4],
     pub(crate) v1: [u64; 4],
     pub(crate) mul0: [u64; 4],
     pub(crate) mul1: [u64; 4],
     pub(crate) buffer: HashPacket,
+}
+
+impl Default for PortableHash {
+    fn default() -> Self {
+        PortableHash::new(Key::default())
+    }
 }
 
 impl HighwayHash for PortableHash {
